@@ -125,18 +125,18 @@ def firstOf : Json → Json
 
 mutual
 /-- the body of function `idx` applied to `arg` (already sanitized), `fuel` bounds call depth -/
-def denoteFunc (ver : String → Json) (fuel : Nat) (fs : Array Func) (idx : Nat) (arg : Json) (kw : Json) : Prog :=
+def denoteFunc (ver : String → Json) (fuel : Nat) (fs : Array Func) (idx : Nat) (tgt : Option Path) (arg : Json) (kw : Json) : Prog :=
   match fs[idx]? with
   | none => .raise (.internal "no such function")
-  | some f => goStmts ver fuel fs f.stmts [entryV (canon arg), entryV (canon kw), entryV (canon (ver f.name))] (retOf f)
+  | some f => goStmts ver fuel fs tgt f.stmts [entryV (canon arg), entryV (canon kw), entryV (canon (ver f.name))] (retOf f)
 termination_by (fuel, 1, 0)
-def goStmts (ver : String → Json) (fuel : Nat) (fs : Array Func) (ss : List Stmt) (acc : List Json)
+def goStmts (ver : String → Json) (fuel : Nat) (fs : Array Func) (tgt : Option Path) (ss : List Stmt) (acc : List Json)
     (k : List Json → Prog) : Prog :=
   match ss with
   | [] => k acc
-  | st :: rest => goStmt ver fuel fs st acc (fun acc' => goStmts ver fuel fs rest acc' k)
+  | st :: rest => goStmt ver fuel fs tgt st acc (fun acc' => goStmts ver fuel fs tgt rest acc' k)
 termination_by (fuel, 0, sizeOf ss)
-def goStmt (ver : String → Json) (fuel : Nat) (fs : Array Func) (st : Stmt) (acc : List Json)
+def goStmt (ver : String → Json) (fuel : Nat) (fs : Array Func) (tgt : Option Path) (st : Stmt) (acc : List Json)
     (k : List Json → Prog) : Prog :=
   match st with
   | .q (.getSize p) =>
@@ -146,13 +146,16 @@ def goStmt (ver : String → Json) (fuel : Nat) (fs : Array Func) (st : Stmt) (a
       | _ => .query (.getSize p) (queryK acc k))
   | .q q => .query q (queryK acc k)
   | .raise tok => .raise (.user tok)
-  | .write c => .write (match c with | some s => s | none => digest (render (.arr acc))) (k acc)
-  | .ite c t e => if evalCond c acc then goStmts ver fuel fs t acc k else goStmts ver fuel fs e acc k
+  | .write c =>
+    -- the user's `open(target, 'w')` fails with ENAMETOOLONG for an over-long name
+    if (match tgt with | some p => Path.tooLong p | none => false) then .raise (.os .other)
+    else .write (match c with | some s => s | none => digest (render (.arr acc))) (k acc)
+  | .ite c t e => if evalCond c acc then goStmts ver fuel fs tgt t acc k else goStmts ver fuel fs tgt e acc k
   | .bf path cmp callee arg kw catch_ =>
     match fuel, sanitize (.list false [arg]), sanitize kw with
     | fuel'+1, some args, some kws =>
       let name := match fs[callee]? with | some f => f.name | none => "?"
-      .buildFile path cmp name args kws (denoteFunc ver fuel' fs callee (firstOf args) kws)
+      .buildFile path cmp name args kws (denoteFunc ver fuel' fs callee (some path) (firstOf args) kws)
         (callK catch_ acc k)
     | 0, _, _ => .raise (.internal "fuel")
     | _, _, _ => callK catch_ acc k (.error .typeErr)
@@ -160,7 +163,7 @@ def goStmt (ver : String → Json) (fuel : Nat) (fs : Array Func) (st : Stmt) (a
     match fuel, sanitize (.list false [arg]), sanitize kw with
     | fuel'+1, some args, some kws =>
       let name := match fs[callee]? with | some f => f.name | none => "?"
-      .subbuild name args kws (denoteFunc ver fuel' fs callee (firstOf args) kws) (callK catch_ acc k)
+      .subbuild name args kws (denoteFunc ver fuel' fs callee none (firstOf args) kws) (callK catch_ acc k)
     | 0, _, _ => .raise (.internal "fuel")
     | _, _, _ => callK catch_ acc k (.error .typeErr)
 termination_by (fuel, 0, sizeOf st)
